@@ -541,13 +541,11 @@ func (p *Path) concInt(fr *frame, t *Term, typ types.Type, lo, hi int, pos token
 		return int(t.u)
 	}
 	w := t.S.W
-	for v := lo; v <= hi; v++ {
-		if p.forkBool(p.tb.Eq(t, BVConst(uint64(v), w)), fr, pos) {
-			return v
-		}
+	inb := p.tb.And(p.tb.BVLe(BVConst(uint64(lo), w), t, true), p.tb.BVLe(t, BVConst(uint64(hi), w), true))
+	if !p.forkBool(inb, fr, pos) {
+		p.abort("inconclusive", fmt.Sprintf("symbolic %s outside [%d,%d] at %s", what, lo, hi, p.where(fr, pos)))
 	}
-	p.abort("inconclusive", fmt.Sprintf("symbolic %s outside [%d,%d] at %s", what, lo, hi, p.where(fr, pos)))
-	return 0
+	return int(p.concretize(t, true, fr, pos))
 }
 
 func (p *Path) sliceOp(fr *frame, in *ssa.Slice) Value {
